@@ -124,7 +124,7 @@ def _run_one(args):
     try:
         try:
             out = mod.run_case(case)
-            if isinstance(out, Result):
+            if hasattr(out, 'out'):
                 out = out.out()
         finally:
             signal.setitimer(signal.ITIMER_REAL, 0)
@@ -383,7 +383,9 @@ def run_check(mod, tier, seed, replay=None, jobs=None):
         print('  coverage ' + ' '.join('%s=%d' % kv for kv in
                                        sorted(tags.items())))
     for n, s, e in errors[:5]:
-        print('  ERROR case=%s status=%s %s' % (n, s, (e or '')[:600]))
+        e = e or ''
+        print('  ERROR case=%s status=%s %s ... %s' % (
+            n, s, e.split('\n')[0][:300], e[-500:].replace('\n', ' | ')))
     for ln in lines:
         print(ln)
     if verdict == 'violated':
